@@ -1849,14 +1849,16 @@ where
             self.store.add(packet.clone().try_into().unwrap()).unwrap();
         }
 
+        // The exchange now waits for PUBCOMP, whether the PUBREL goes out now or is
+        // retransmitted from the store after the next CONNACK.
+        self.pid_pubcomp.insert(packet_id);
         if self.status == ConnectionStatus::Connected {
-            self.pid_pubcomp.insert(packet_id);
             events.push(GenericEvent::RequestSendPacket {
                 packet: packet.into(),
                 release_packet_id_if_send_error: None,
             });
+            self.send_post_process(&mut events);
         }
-        self.send_post_process(&mut events);
 
         events
     }
@@ -1885,14 +1887,16 @@ where
             self.store.add(packet.clone().try_into().unwrap()).unwrap();
         }
 
+        // The exchange now waits for PUBCOMP, whether the PUBREL goes out now or is
+        // retransmitted from the store after the next CONNACK.
+        self.pid_pubcomp.insert(packet_id);
         if self.status == ConnectionStatus::Connected {
-            self.pid_pubcomp.insert(packet_id);
             events.push(GenericEvent::RequestSendPacket {
                 packet: packet.into(),
                 release_packet_id_if_send_error: None,
             });
+            self.send_post_process(&mut events);
         }
-        self.send_post_process(&mut events);
 
         events
     }
